@@ -20,6 +20,11 @@ VOID_BLOCK = ["hr", "meta", "link", "base"]
 RAW = ["script", "style"]
 CUSTOM = ["my-elem", "x:y", "A1", "foo.bar", "h_1"]
 ATTR_NAMES = ["id", "class", "data-x", "title", "href", "aria-label", "x:y", "A"]
+# names that differ from an entry of the void / no-escape tables only by case, and near misses of such entries: the
+# tables are looked up exactly, so all of these are ordinary elements
+NEAR_CASE = ["Script", "SCRIPT", "Style", "sTyle", "BR", "Br", "Img", "HR", "Meta", "LINK", "Input"]
+NEAR_MISS = ["scripts", "br2", "styl", "style2", "imgs", "hr-x", "wbrr", "scrip", "metas"]
+NEAR_P = 0.05
 
 
 def rand_text(rng: random.Random, maxlen: int = 12) -> str:
@@ -54,8 +59,11 @@ def rand_attrs(rng: random.Random, maxn: int = 3, html_ok: bool = True):
     return out
 
 
-def rand_name(rng: random.Random, all_names=None) -> tuple[str, bool]:
+def rand_name(rng: random.Random, all_names=None, near=("case", "miss")) -> tuple[str, bool]:
     """(name, default add_ws)"""
+    if near and rng.random() < NEAR_P:
+        pool = (NEAR_CASE if "case" in near else []) + (NEAR_MISS if "miss" in near else [])
+        return rng.choice(pool), rng.random() < 0.5
     r = rng.random()
     if r < 0.3:
         return rng.choice(BLOCK), True
@@ -75,7 +83,7 @@ def rand_name(rng: random.Random, all_names=None) -> tuple[str, bool]:
 
 
 def rand_node(rng: random.Random, depth: int, *, leaves=("text", "html", "robj", "meta"), fan: int = 4,
-              all_names=None, flip_ws: float = 0.15, attrs: bool = True, html_attrs: bool = True):
+              all_names=None, flip_ws: float = 0.15, attrs: bool = True, html_attrs: bool = True, near=("case", "miss")):
     if depth <= 0 or rng.random() < 0.3:
         k = rng.choice(leaves)
         if k == "text":
@@ -87,12 +95,12 @@ def rand_node(rng: random.Random, depth: int, *, leaves=("text", "html", "robj",
         if k == "meta":
             return ("meta", rng.randint(0, 9))
         raise ValueError(k)
-    name, ws = rand_name(rng, all_names)
+    name, ws = rand_name(rng, all_names, near)
     if rng.random() < flip_ws:
         ws = not ws
     n = rng.choice([0, 1, 1, 2, 2, 3, fan])
     kids = [rand_node(rng, depth - 1, leaves=leaves, fan=fan, all_names=all_names, flip_ws=flip_ws,
-                      attrs=attrs, html_attrs=html_attrs) for _ in range(n)]
+                      attrs=attrs, html_attrs=html_attrs, near=near) for _ in range(n)]
     return ("tag", name, ws, rand_attrs(rng, html_ok=html_attrs) if attrs else [], kids)
 
 
@@ -237,6 +245,10 @@ def render_lines(rng, tier: str, budget, all_fns=None, eols_quick=((0, "\n"), (2
         lines.append(f"render_list {enodes(ks)} {i} {es(e)} {eb(rng.random() < 0.6)} {eb(rng.random() < 0.85)}")
     lines += deep_chain_lines(rng, 40 if tier == "quick" else 400)
     scopes.append({"scope": "boundary stream: nesting depth and indent argument in " + str(BOUNDARY_LEVELS), "exhaustive": False})
+    lines += boundary_lines(rng, leaves=rand_leaves)
+    scopes.append({"scope": "width stream: fan-out / attribute count in " + str(WIDTHS) + " x {all block, all inline, all text, all void, mixed} "
+                            "x {block parent, inline parent, top-level list}; text lengths " + str(ALIAS_LENGTHS) + "; every case variant / near miss "
+                            "of a void or no-escape name (" + ", ".join(NEAR_CASE + NEAR_MISS) + ") x 2 flags x 6 child patterns", "exhaustive": True})
     return lines, scopes
 
 
@@ -287,6 +299,79 @@ def alias_trees(rng: random.Random, count: int):
 
 # boundary depths / indents ------------------------------------------------------------------------------
 BOUNDARY_LEVELS = [14, 15, 16, 17, 18, 31, 32, 33, 63, 64, 65, 100]
+
+
+WIDTHS = [7, 8, 9, 15, 16, 17, 31, 32, 33, 64, 100]
+
+
+def wide_trees(rng: random.Random, leaves=("text", "html", "robj", "meta"), html_attrs: bool = True):
+    """fan-outs, attribute counts and text lengths around typical thresholds (8, 16, 32, …): a fast path that switches
+    on for "many children" / "many attributes" / "long text" shows up here"""
+    out = []
+    leaf_cycle = [k for k in ("text", "html", "robj", "meta") if k in leaves] or ["text"]
+
+    def leaf(kind, i):
+        return ("meta", i % 10) if kind == "meta" else (kind, ["a", "<&>", "x y", "", "é"][i % 5] + str(i))
+
+    for w in WIDTHS:
+        shapes = {
+            "block": [("tag", "div", True, [], [("text", str(i))]) for i in range(w)],
+            "inline": [("tag", "span", False, [], [("text", str(i))]) for i in range(w)],
+            "text": [("text", f"t{i}<") for i in range(w)],
+            "void": [("tag", ["br", "hr", "img"][i % 3], ["br", "hr", "img"][i % 3] == "hr", [], []) for i in range(w)],
+            "mixed": [(("tag", "div", True, [], [("text", "b")]), ("tag", "em", False, [], [("text", "i")]), ("text", "t&"),
+                       leaf(leaf_cycle[i % len(leaf_cycle)], i), ("tag", "p", True, [], []))[i % 5] for i in range(w)],
+        }
+        for kind, kids in shapes.items():
+            for (pn, pws) in (("div", True), ("span", False)):
+                out.append(("tag", pn, pws, [], kids))
+            out.append(("list", kids))
+        attrs = [(f"a{i}", ("h" if (html_attrs and i % 7 == 3) else "p", f"v{i}\"&")) for i in range(w)]
+        out.append(("tag", "div", True, attrs, [("text", "x")]))
+        out.append(("tag", "img", False, attrs, []))
+    for n in ALIAS_LENGTHS:
+        s_ = alias_string(rng, n)
+        out.append(("tag", "div", True, [], [("text", s_), ("tag", "span", False, [], [("text", s_)]), ("text", s_)]))
+        out.append(("tag", "span", False, [("title", ("p", s_))], [("text", s_)]))
+    return out
+
+
+def near_name_trees(near=("case", "miss")):
+    """every near-table name as an only element, as a parent of text / several children, and as a child"""
+    names = (NEAR_CASE if "case" in near else []) + (NEAR_MISS if "miss" in near else [])
+    out = []
+    for nm in names:
+        for ws in (True, False):
+            for kids in ([], [("text", "a<b&c>")], [("text", "x"), ("text", "<y>")], [("tag", "b", False, [], [("text", "&")])],
+                         [("text", "</" + nm + ">")]):
+                out.append(("tag", nm, ws, [], kids))
+            out.append(("tag", "div", True, [], [("text", "p"), ("tag", nm, ws, [], [("text", "<q>")]), ("text", "r")]))
+    return out
+
+
+def boundary_cases(rng: random.Random, leaves=("text", "html", "robj", "meta"), near=("case", "miss"), html_attrs: bool = True):
+    """wide_trees and near_name_trees as marker-substitution cases (harness/subst.py check_cases)"""
+    out = []
+    for t in wide_trees(rng, leaves, html_attrs) + near_name_trees(near):
+        if t[0] == "list":
+            out.append(("list", t[1], 1, "\n", True, True))
+        else:
+            out.append(("tag", t, 1, "\n"))
+    return out
+
+
+def boundary_lines(rng: random.Random, leaves=("text", "html", "robj", "meta"), near=("case", "miss"), html_attrs: bool = True,
+                   cfgs=((0, "\n"), (2, "<!>"))):
+    """render_tag / render_list lines for wide_trees and near_name_trees"""
+    from wire import enode, enodes, es
+    lines = []
+    for t in wide_trees(rng, leaves, html_attrs) + near_name_trees(near):
+        for (i, e) in cfgs:
+            if t[0] == "list":
+                lines.append(f"render_list {enodes(t[1])} {i} {es(e)} T T")
+            else:
+                lines.append(f"render_tag {enode(t)} {i} {es(e)}")
+    return lines
 
 
 def deep_chain_lines(rng: random.Random, n_extra: int = 40):
